@@ -7,7 +7,10 @@ import z3
 
 from . import smt, ops
 from .values import *  # noqa
-from .engine import (Engine, Env, PyRaise, Unsupported, PathAbort, PathLimit, _Return, I, S)
+from .engine import (Engine, Env, PyRaise, Unsupported, PathAbort, PathLimit, _Return, I, S, BudgetExceeded)
+import os as _os_
+
+FUNC_BUDGET_S = float(_os_.environ.get('PYVC_FUNC_BUDGET_S', '600'))
 
 REGISTRY = {}
 
@@ -340,6 +343,8 @@ def verify(E, c, verbose=False):
     E.cur_res = res
     limit = c.max_paths or E.max_paths
     prefix = c.key
+    if E.deadline is None:
+        E.deadline = t0 + FUNC_BUDGET_S
     # make sure every declared clause shows up as an obligation even if no path reaches it
     while work:
         dec = work.pop()
@@ -433,6 +438,14 @@ def verify(E, c, verbose=False):
                 res.unsupported.append(msg)
         except RecursionError:
             res.unsupported.append('recursion limit')
+        except BudgetExceeded:
+            res.unsupported.append('time budget of %ds for this function exceeded (undecided, not a verdict)' % FUNC_BUDGET_S)
+            del work[:]
+            E.pending = []
+        except MemoryError:
+            res.unsupported.append('memory limit reached while exploring this function (undecided, not a verdict)')
+            del work[:]
+            E.pending = []
         except (PyRaise, _Return):
             raise
         except Exception as ex:  # engine defect on this path: undecided, never a verdict
